@@ -1,28 +1,73 @@
 """C19 - a session can be shared by concurrent goroutines.
 
-1. TLC design check of Session.tla: every interleaving of 3 goroutines x 2 endpoints (RWMutex modelled by
-   reader set / writer / waiting writers): NoBadUnlock, MutexOK, AtMostOneConnPerEndpoint at quiescence,
-   AllGetTheSharedClient, ReturnedIsOpen, no deadlock, every request terminates (fairness); a second
-   configuration with connection loss (closers); the deviation configuration (RUnlock under the write lock,
-   the code as found) must violate NoBadUnlock - it documents what the replay would hit.
-2. (b) one schedule per transition of the state graph (GenSession) forced on a real session.Session with the
-   gates of Session.client, in a child process, against a directory and two more real servers; every
-   request must succeed, every proxy must work, the servers must see one live connection per endpoint.
-3. (c) free-running goroutines; the hook events are validated against Session.tla by TraceSession.tla.
+1. TLC design checks of Session.tla (services advertise address LISTS: dead / test-range / live addresses;
+   SelectEndPoint = first address that is not skipped and can be dialed; dial, authentication (may be refused)
+   and the connected address are separate steps; the pool is keyed by the connected address; the closer is
+   registered in its own step after the insert; connections may be lost at any point; RWMutex explicit):
+   every interleaving of 3 goroutines x 5 services x 2 endpoints (safety), a configuration with connection
+   loss + refused authentications, a liveness configuration (every request terminates, a lost pooled
+   connection is forgotten).  Every Dev_* switch (what the code does / did differently, or could plausibly do)
+   must violate its invariant (vacuity guard, model_only).
+2. (b) schedules exported by TLC (GenSession: one per transition of the state graph; four configurations, the
+   larger ones as a seeded sample in the quick tier) forced on a real session.Session with gates, in child
+   processes, against a directory and real servers whose services are registered under the address lists of
+   the specification, with an authenticator that refuses on demand and server-side streams the harness can
+   hold and cut.  Observed: the point reached at each step, the addresses in the hook events (connected
+   address, pool key), the outcome of every request, every proxy usable, a later request finds the shared
+   client, closers started, server-side live connections per endpoint, accepted minus closed connections.
+3. (c) free-running goroutines over the same services (one endpoint refuses some authentications); the hook
+   events are validated against Session.tla by TraceSession.tla (connected address, pool key, outcome).
 4. burst: more requests in flight than the server-side queue holds.
 Self-tests: corrupted schedules must fail the replay, corrupted traces must be rejected.
 """
-import json, os
+import json, os, time
+from concurrent.futures import ThreadPoolExecutor
 from vlib import Infra
 
+DEVS = [  # cfg, invariant that must break, what it stands for
+    ("MCSession_dev.cfg", ["NoBadUnlock"],
+     "Dev_RUnlockUnderWriteLock (session.go before 386dabb): RUnlock of the write-locked mutex"),
+    ("MCSession_dev_nil.cfg", ["ProcessAlive"],
+     "Dev_NilChannelWhenAllSkipped (client.go as found): every address in the test range -> (\"\", nil, nil) -> nil dereference in Session.client"),
+    ("MCSession_dev_authleak.cfg", ["ExtraConnectionsClosed"],
+     "Dev_AuthFailureLeaksConnection (client.go as found): a refused authentication leaves the connection open"),
+    ("MCSession_dev_deadclient.cfg", ["PoolHoldsLiveClients"],
+     "Dev_DeadClientStaysInPool (session.go / endpoint.go as found): a connection lost between the insert and AddHandler stays in the pool for ever"),
+    ("MCSession_dev_key.cfg", ["AtMostOneConnPerEndpoint"],
+     "Dev_PoolKeyedByAdvertised: pool keyed by the first advertised address instead of the connected one -> two connections to one endpoint"),
+    ("MCSession_dev_closer.cfg", ["AllGetTheSharedClient", "AtMostOneConnPerEndpoint"],
+     "Dev_CloserBeforeInsert: the loser of a dial race carries a closer; closing the duplicate deletes the winner's entry"),
+]
 
-def export(r, tag, path):
-    n = 0
-    with open(path, "w") as f:
-        for v in r.printed(tag):
-            f.write(json.dumps(v) + "\n")
-            n += 1
-    return n
+# schedule classes: (name, cfg, quick sample modulus, thorough sample modulus, minimum exported)
+GENS = [
+    ("core", "GenSession.cfg", 1, 1, 3000),
+    ("wide", "GenSession_wide.cfg", 24, 1, 1500),
+    ("3g", "GenSession_3g.cfg", 24, 2, 1500),
+    ("loss", "GenSession_loss.cfg", 12, 1, 1500),
+]
+
+
+def key_of(t):
+    return "|".join("%s.%s.%s.%d" % (x["g"], x["act"], x["svc"], x["conn"]) for x in t["steps"])
+
+
+def prune_prefixes(ts):
+    """drop every schedule that is a proper prefix of another one (its transitions are replayed there)"""
+    ts = sorted(ts, key=lambda t: -len(t["steps"]))
+    seen, keep = set(), []
+    for t in ts:
+        parts = ["%s.%s.%s.%d" % (x["g"], x["act"], x["svc"], x["conn"]) for x in t["steps"]]
+        k = "|".join(parts)
+        if k in seen:
+            continue
+        keep.append(t)
+        acc = ""
+        for p in parts:
+            acc = p if not acc else acc + "|" + p
+            seen.add(acc)
+    keep.sort(key=lambda t: len(t["steps"]))
+    return keep
 
 
 def split_rounds(path):
@@ -74,136 +119,236 @@ def locate(rounds, hwm):
 
 def run(ctx):
     thorough = ctx.tier == "thorough"
-    # 1. design
-    ctx.design_check("Session", "MCSession_thorough.cfg" if thorough else "MCSession.cfg",
-                     workers=10 if thorough else 6, timeout=3000, coverage=thorough)
-    ctx.design_check("Session", "MCSession_loss.cfg", workers=4, timeout=1200)
-    r = ctx.tlc("Session", "MCSession_dev.cfg", workers=4, timeout=600, expect_ok=False, count=False)
-    if "NoBadUnlock" not in r.violated:
-        raise Infra("Session with Dev_RUnlockUnderWriteLock should violate NoBadUnlock, got %s" % r.violated)
-    ctx.extra["deviation_model"] = ("Dev_RUnlockUnderWriteLock (session.go as found): TLC reaches the RUnlock of a "
-                                    "write-locked mutex in 15 steps (both miss, both dial, one inserts, the other re-checks)")
+    ctx.build_harness("registry")
+    pool = ThreadPoolExecutor(max_workers=20)
 
-    # 2. schedules
-    sp = ctx.path("c19-sched.ndjson")
+    # 1. design (all TLC runs of this stage in parallel)
+    def design(cfg, workers, **kw):
+        return ctx.design_check("Session", cfg, workers=workers, timeout=3000, **kw)
+
+    designs = []
     if thorough:
-        g = ctx.tlc("GenSession", "GenSession_thorough.cfg", workers=1, count=False, timeout=3000,
-                    env={"SEL": str(ctx.seed % 50)})
+        designs.append(pool.submit(design, "MCSession_thorough.cfg", 6, coverage=True))
+        designs.append(pool.submit(design, "MCSession_thorough2.cfg", 4))
+        designs.append(pool.submit(design, "MCSession_live_thorough.cfg", 4))
     else:
-        g = ctx.tlc("GenSession", "GenSession.cfg", workers=1, count=False, timeout=1200)
-    n = export(g, "T", sp)
-    if n < 5000:
-        raise Infra("schedule export too small: %d" % n)
-    res = ctx.harness_json("registry", ["c19replay", sp, "6"], timeout=3000)
-    ctx.failures(res["failures"])
-    aborted = "aborted_at_case" in (res.get("extra") or {})
-    if res["evaluations"] < n and not res["failures"]:
-        raise Infra("harness replayed %d of %d schedules" % (res["evaluations"], n))
-    ctx.traces += res["evaluations"]
-    for s in res["samples"][:3]:
-        ctx.sample(s)
-    ctx.extra.update({"schedules_exported": n, "schedules_replayed": res["evaluations"],
-                      "replay_steps": (res.get("extra") or {}).get("steps"),
-                      "replay_fail_count": res.get("fail_count"), "replay_aborted_after_crashes": aborted})
+        designs.append(pool.submit(design, "MCSession.cfg", 4))
+        designs.append(pool.submit(design, "MCSession_live.cfg", 3))
+    designs.append(pool.submit(design, "MCSession_loss.cfg", 3))
+    devs = [(cfg, inv, what, pool.submit(ctx.tlc, "Session", cfg, workers=2, timeout=900, expect_ok=False, count=False))
+            for cfg, inv, what in DEVS]
+
+    # 2. schedules: export (TLC) and replay (harness) per class, pipelined
+    def gen_and_replay(name, cfg, mod, minimum):
+        g = ctx.tlc("GenSession", cfg, workers=1, count=False, timeout=3000,
+                    env={"MOD": str(mod), "SEL": str(ctx.seed % mod)}, name="gen-" + name)
+        if not g.ok:
+            raise Infra("GenSession %s: %s\n%s" % (cfg, g.violated, g.out[-3000:]))
+        ws = g.printed("W")
+        if len(ws) != 1:
+            raise Infra("GenSession %s did not export its world" % cfg)
+        ts = g.printed("T")
+        n_all = len(ts)
+        ts = prune_prefixes(ts)
+        if len(ts) < minimum:
+            raise Infra("schedule export %s too small: %d" % (name, len(ts)))
+        wp, sp = ctx.path("c19-world-%s.json" % name), ctx.path("c19-sched-%s.ndjson" % name)
+        json.dump(ws[0], open(wp, "w"))
+        with open(sp, "w") as f:
+            for t in ts:
+                f.write(json.dumps(t) + "\n")
+        t0 = time.time()
+        res = ctx.harness_json("registry", ["c19replay", wp, sp, "5"], timeout=3000)
+        return {"name": name, "transitions": g.generated, "exported": n_all, "schedules": len(ts), "res": res,
+                "world": wp, "sched": sp, "replay_s": round(time.time() - t0, 1)}
+
+    gens = [pool.submit(gen_and_replay, name, cfg, tm if thorough else qm, 1 if thorough and tm > 1 else mn)
+            for name, cfg, qm, tm, mn in GENS]
+
+    # 3. free-running goroutines -> TraceSession; 4. burst  (both run beside the replays)
+    def world_free():
+        g = ctx.tlc("GenSession", "GenSession_free.cfg", workers=1, count=False, timeout=600,
+                    env={"MOD": "1", "SEL": "0"}, name="gen-free-world")
+        ws = g.printed("W")
+        if len(ws) != 1:
+            raise Infra("GenSession_free.cfg did not export its world:\n" + g.out[-2000:])
+        wp = ctx.path("c19-world-free.json")
+        json.dump(ws[0], open(wp, "w"))
+        return wp
+
+    wfut = pool.submit(world_free)
+
+    def free_stage():
+        rounds = 600 if thorough else 80
+        tp = ctx.path("c19-free.ndjson")
+        fres = ctx.harness_json("registry", ["c19free", wfut.result(), tp, str(rounds), "8"], timeout=3000)
+        rs = split_rounds(tp) if os.path.exists(tp) else []
+        if len(rs) + sum((fres.get("fail_count") or {}).values()) < fres["evaluations"] and not fres["failures"]:
+            raise Infra("recorded %d rounds of %d" % (len(rs), rounds))
+        out = {"fres": fres, "rs": rs, "rejected": [], "validated": 0, "first_ok": None, "states": 0, "transitions": 0}
+        part = rs
+        while part:
+            bad, r = validate(ctx, part, "c19-trace")
+            if bad is None:
+                out["validated"] += len(part)
+                out["first_ok"] = out["first_ok"] or part
+                out["states"] += r.distinct
+                out["transitions"] += r.generated
+                break
+            why, hwm = bad
+            i, rec = locate(part, hwm)
+            h = [json.loads(x) for x in part[i]]
+            out["rejected"].append((why, rec, h))
+            out["validated"] += i
+            part = part[i + 1:]
+            if len(out["rejected"]) >= 5:
+                break
+        return out
+
+    def burst_stage():
+        bp = ctx.path("c19-burst.ndjson")
+        return ctx.harness_json("registry", ["c19free", wfut.result(), bp, "40" if thorough else "10", "24"], timeout=1200)
+
+    ffut = pool.submit(free_stage)
+    bfut = pool.submit(burst_stage)
+
+    for d in designs:
+        d.result()
+    for cfg, inv, what, fut in devs:
+        r = fut.result()
+        if not set(r.violated or []) & set(inv):
+            raise Infra("Session/%s should violate %s, got %s\n%s" % (cfg, inv, r.violated, r.out[-2000:]))
+        ctx.model_only.append({"config": cfg, "violates": [v for v in r.violated if v in inv], "deviation": what})
+
+    classes = {}
+    for fut in gens:
+        c = fut.result()
+        res = c["res"]
+        classes[c["name"]] = c
+        ctx.failures(res["failures"])
+        ex = res.get("extra") or {}
+        skipped = int(ex.get("skipped_after_repeated_failure") or 0)
+        if res["evaluations"] + skipped < c["schedules"] and not res["failures"]:
+            raise Infra("harness replayed %d (+%d skipped) of %d schedules (%s)" % (res["evaluations"], skipped, c["schedules"], c["name"]))
+        ctx.traces += res["evaluations"]
+        for s in res["samples"][:2]:
+            ctx.sample(s)
+        ctx.extra["replay_" + c["name"]] = {
+            "transitions_of_the_state_graph": c["transitions"], "schedules_exported": c["exported"],
+            "schedules_after_prefix_pruning": c["schedules"], "schedules_replayed": res["evaluations"],
+            "skipped_after_repeated_failure_of_a_step_kind": skipped, "steps": ex.get("steps"),
+            "fail_count": res.get("fail_count"), "budget_exhausted": bool(ex.get("budget_exhausted")),
+            "child_crashes": ex.get("child_crashes"), "wall_s": c["replay_s"]}
 
     # self-test of the replay: wrong expectations must be noticed
-    st = ctx.path("c19-selftest.ndjson")
-    k = 0
-    with open(st, "w") as f:
-        for line in open(sp):
-            t = json.loads(line)
-            acts = [x["act"] for x in t["steps"]]
-            if k == 0 and acts[-1] == "LookupMiss":
-                t["steps"][-1]["act"] = "LookupHit"; f.write(json.dumps(t) + "\n"); k += 1
-            elif k == 1 and acts[-1] == "Dup":
-                t["steps"][-1]["act"] = "Insert"; f.write(json.dumps(t) + "\n"); k += 1
-            elif k == 2 and acts[-1] == "Insert":
-                t["steps"][-1]["act"] = "Dup"; f.write(json.dumps(t) + "\n"); k += 1
-            if k == 3:
-                break
     if not ctx.violations:
-        sres = ctx.harness_json("registry", ["c19replay", st, "1"], timeout=600)
+        core = classes["core"]
+        st = ctx.path("c19-selftest.ndjson")
+        k = 0
+        with open(st, "w") as f:
+            for line in open(core["sched"]):
+                t = json.loads(line)
+                last = t["steps"][-1]
+                if k == 0 and last["act"] == "LookupMiss":
+                    last["act"] = "LookupHit"; last["res"] = "ok"; last["st"] = "open"
+                elif k == 1 and last["act"] == "Dup":
+                    last["act"] = "Insert"
+                elif k == 2 and last["act"] == "Insert":
+                    last["act"] = "Dup"
+                elif k == 3 and last["act"] == "AuthOK" and last["svc"] == "xe":
+                    last["a"] = "F"           # connected to another address than the specification says
+                elif k == 4 and last["act"] == "Insert" and last["svc"] == "xe":
+                    last["key"] = "X"         # pool keyed by the first advertised address
+                elif k == 5 and last["act"] == "SelectFail":
+                    last["res"] = "ok"; last["st"] = "open"
+                else:
+                    continue
+                f.write(json.dumps(t) + "\n")
+                k += 1
+                if k == 6:
+                    break
+        sres = ctx.harness_json("registry", ["c19replay", core["world"], st, "1"], timeout=600)
         fc = sres.get("fail_count") or {}
-        if k != 3 or sum(fc.values()) != 3:
-            raise Infra("replay self-test: corrupted schedules not all detected: %s" % fc)
+        if k != 6 or sum(fc.values()) != 6:
+            raise Infra("replay self-test: corrupted schedules not all detected (%d written): %s" % (k, fc))
         ctx.extra["replay_selftest"] = fc
 
-    # 3. free-running goroutines -> TraceSession
-    rounds = 600 if thorough else 80
-    tp = ctx.path("c19-free.ndjson")
-    fres = ctx.harness_json("registry", ["c19free", tp, str(rounds), "10"], timeout=3000)
+    # 3./4. results of the free-running and burst stages
+    fr = ffut.result()
+    fres, rs, first_ok = fr["fres"], fr["rs"], fr["first_ok"]
     ctx.failures(fres["failures"])
-    rs = split_rounds(tp) if os.path.exists(tp) else []
-    if len(rs) + sum((fres.get("fail_count") or {}).values()) < fres["evaluations"] and not fres["failures"]:
-        raise Infra("recorded %d rounds of %d" % (len(rs), rounds))
-    rejected = validated = 0
-    first_ok = None
-    part = rs
-    while part:
-        bad, r = validate(ctx, part, "c19-trace")
-        if bad is None:
-            validated += len(part)
-            first_ok = first_ok or part[0]
-            ctx.states += r.distinct
-            ctx.transitions += r.generated
-            break
-        why, hwm = bad
-        i, rec = locate(part, hwm)
-        rejected += 1
-        h = [json.loads(x) for x in part[i]]
+    ctx.states += fr["states"]
+    ctx.transitions += fr["transitions"]
+    for why, rec, h in fr["rejected"]:
         ctx.failure("session/free/trace-rejected",
                     "the recorded execution is not a behaviour of Session.tla (%s; at event %d: %s)" %
                     (why, rec, json.dumps(h[rec - 1]) if 0 < rec <= len(h) else "?"),
                     {"round": h[0].get("round"), "seed": ctx.seed, "at": rec, "trace": h})
-        validated += i
-        part = part[i + 1:]
-        if rejected >= 5:
-            break
-    ctx.traces += validated + rejected
+    ctx.traces += fr["validated"] + len(fr["rejected"])
     ctx.extra.update({"free_rounds": len(rs), "free_calls": (fres.get("extra") or {}).get("calls"),
-                      "free_rounds_validated": validated, "free_rounds_rejected": rejected})
+                      "free_rounds_validated": fr["validated"], "free_rounds_rejected": len(fr["rejected"])})
     if rs:
-        ctx.sample({"trace": [json.loads(x) for x in rs[0]][:14]})
+        ctx.sample({"trace": [json.loads(x) for x in rs[0]][:16]})
 
     # self-test of the trace specification
     if first_ok is not None and not ctx.violations:
-        h = [json.loads(x) for x in first_ok]
         muts = []
-        for i, x in enumerate(h):
-            if x["k"] == "dup":
-                m = json.loads(json.dumps(h)); m[i]["k"] = "insert"; muts.append(("second-insert", m)); break
-        for i, x in enumerate(h):
-            if x["k"] == "hit":
-                m = json.loads(json.dumps(h)); m[i]["client"] += 1; muts.append(("hit-other-client", m)); break
-        for i, x in enumerate(h):
-            if x["k"] == "insert" and x["addr"] != "D":
-                m = json.loads(json.dumps(h)); del m[i]; muts.append(("insert-dropped", m)); break
-        for name, m in muts:
-            bad, r = validate(ctx, [[json.dumps(x) + "\n" for x in m]], "c19-trace-selftest-" + name)
+
+        def mutate(name, pred, change):
+            for rnd in first_ok:
+                h = [json.loads(x) for x in rnd]
+                for i, x in enumerate(h):
+                    if pred(x):
+                        m = change(h, i)
+                        muts.append((name, m))
+                        return
+
+        def setk(key, val):
+            def f(h, i):
+                h[i][key] = val(h[i][key]) if callable(val) else val
+                return h
+            return f
+
+        mutate("second-insert", lambda x: x["k"] == "dup", setk("k", "insert"))
+        mutate("hit-other-client", lambda x: x["k"] == "hit" and x["addr"] != "D", setk("client", lambda c: c + 1))
+        mutate("insert-dropped", lambda x: x["k"] == "insert" and x["addr"] != "D", lambda h, i: h[:i] + h[i + 1:])
+        mutate("connected-to-dead-address", lambda x: x["k"] == "dialed" and x["addr"] == "E", setk("addr", "X"))
+        mutate("pool-keyed-by-other-address", lambda x: x["k"] == "insert" and x["addr"] == "E", setk("addr", "X"))
+        mutate("error-for-reachable-service", lambda x: x["k"] == "dialed" and x["addr"] == "E", setk("k", "selfail"))
+        if len(muts) < 5:
+            raise Infra("trace self-test could not build its corrupted traces: %s" % [n for n, _ in muts])
+        futs = [(name, pool.submit(validate, ctx, [[json.dumps(x) + "\n" for x in m]], "c19-trace-selftest-" + name))
+                for name, m in muts]
+        for name, fut in futs:
+            bad, r = fut.result()
             if bad is None:
                 raise Infra("trace self-test: corrupted trace (%s) accepted by TraceSession" % name)
-        if len(muts) < 2:
-            raise Infra("trace self-test could not build its corrupted traces")
         ctx.extra["trace_selftest"] = [n for n, _ in muts]
     elif not ctx.violations and not ctx.known_hit:
         raise Infra("no trace was validated")
 
-    # 4. burst: 24 goroutines on ONE endpoint (more requests in flight than the server's queue holds)
-    bp = ctx.path("c19-burst.ndjson")
-    bres = ctx.harness_json("registry", ["c19free", bp, "40" if thorough else "10", "24"], timeout=1200)
+    bres = bfut.result()
     ctx.failures(bres["failures"])
     ctx.traces += bres["evaluations"]
     ctx.extra["burst_rounds"] = bres["evaluations"]
     ctx.extra["burst_fail_count"] = bres.get("fail_count")
+    pool.shutdown()
 
     ctx.extra["explanation"] = (
-        "exhaustive TLC check of Session.client with an explicit RWMutex; every transition of the state graph "
-        "replayed as a gated schedule on real sessions against real servers; free-running executions validated "
-        "against the same specification through hook events")
+        "exhaustive TLC check of Session.client + SelectEndPoint (address lists, dial / authenticate / connected "
+        "address, pool keyed by the connected address, closer registered in its own step, connection loss, explicit "
+        "RWMutex); transitions of the state graph replayed as gated schedules on real sessions against real servers "
+        "registered under the same address lists; free-running executions validated against the same specification "
+        "through hook events")
     ctx.assumptions += [
-        "free-running rounds keep at most 5 requests in flight per connection (half of the server's 10-slot queue); "
+        "one address per remote endpoint; a dead address is a unix socket path nobody listens on, the test range is tcp://198.18.0.1:9559",
+        "a refused authentication aborts SelectEndPoint (the remaining addresses are not tried): the specification "
+        "follows the code here - such a request returns an error and its connection must be closed",
+        "free-running rounds keep at most 8 requests in flight per connection (the server's queue has 10 slots); "
         "the burst stage goes beyond and tolerates only the queue-overflow error class (known finding)",
-        "schedules in which sync.RWMutex itself picks the next owner (writer waiting behind a writer / queued readers) "
-        "are checked in the model only (Replayable constraint of GenSession)",
+        "schedules in which sync.RWMutex itself picks the next owner (writer waiting behind a writer / queued readers, "
+        "a closer while a goroutine has been released into Lock()) are checked in the model only (Replayable)",
+        "goroutines are interchangeable: only schedules in which they start in a fixed order are replayed",
+        "quick tier: the classes wide / 3g / loss are replayed as a seeded 1/k sample of their transitions",
         "connections are counted on the server side (harness-owned listener)",
     ]
